@@ -1,20 +1,28 @@
 #!/usr/bin/env python3
 """mkmut.py <name> <file> <old> <new> [<file2> <old2> <new2> ...]
-Creates /verif/mutants/<name>.patch: a unified diff against /repo's current tree obtained by
-replacing the first occurrence of <old> by <new> in <file> (exactly one occurrence required
-unless <old> starts with '@N@' selecting the N-th, 1-based)."""
+Creates /verif/mutants/<name>.patch (or $MUTDIR/<name>.patch): a unified diff against /repo's current
+tree obtained by replacing <old> by <new> in <file> (exactly one occurrence required unless <old>
+starts with '@N@' selecting the N-th, 1-based). Several edits to one file compose."""
 import sys, subprocess, os, tempfile, re
 name = sys.argv[1]
 triples = sys.argv[2:]
 assert len(triples) % 3 == 0 and triples
-out = []
+texts = {}
+order = []
 for i in range(0, len(triples), 3):
     f, old, new = triples[i:i+3]
-    src = open(os.path.join('/repo', f)).read()
+    if f not in texts:
+        p = os.path.join('/repo', f)
+        texts[f] = open(p).read() if os.path.exists(p) else ''
+        order.append(f)
+    src = texts[f]
     n = 1
     m = re.match(r'@(\d+)@', old)
     if m:
         n = int(m.group(1)); old = old[m.end():]
+    if old == '' and src == '':
+        texts[f] = new
+        continue
     cnt = src.count(old)
     if m is None and cnt != 1:
         sys.exit(f"{f}: {cnt} occurrences of old text (need exactly 1, or use @N@)")
@@ -23,11 +31,17 @@ for i in range(0, len(triples), 3):
     idx = -1
     for _ in range(n):
         idx = src.index(old, idx + 1)
-    dst = src[:idx] + new + src[idx+len(old):]
+    texts[f] = src[:idx] + new + src[idx+len(old):]
+out = []
+for f in order:
     with tempfile.NamedTemporaryFile('w', delete=False) as t:
-        t.write(dst)
-    p = subprocess.run(['diff', '-u', '--label', 'a/' + f, '--label', 'b/' + f, os.path.join('/repo', f), t.name], capture_output=True, text=True)
+        t.write(texts[f])
+    orig = os.path.join('/repo', f)
+    if not os.path.exists(orig):
+        orig = '/dev/null'
+    p = subprocess.run(['diff', '-u', '--label', 'a/' + f, '--label', 'b/' + f, orig, t.name], capture_output=True, text=True)
     os.unlink(t.name)
     out.append(p.stdout)
-open(f'/verif/mutants/{name}.patch', 'w').write(''.join(out))
-print(f'/verif/mutants/{name}.patch')
+d = os.environ.get('MUTDIR', '/verif/mutants')
+open(f'{d}/{name}.patch', 'w').write(''.join(out))
+print(f'{d}/{name}.patch')
